@@ -111,6 +111,29 @@ PIPELINE_FAMILY = {
 }
 
 
+class Rejected(Exception):
+    """documented rejection (UPProblemDefinitionError) or unsupported kind: outside the property's domain"""
+
+
+def compile_or_prune(ctx, name, problem, own_crashes=False):
+    """C06/C07/C09 use the compiled problem; a compiler crash is C08's subject and only pruned here."""
+    from unified_planning.exceptions import UPProblemDefinitionError
+
+    try:
+        res = run_compiler(name, problem)
+    except UPProblemDefinitionError:
+        ctx.witness("documented-rejection")
+        ctx.assume(False)
+    except Exception:
+        if own_crashes:
+            raise
+        ctx.witness("compile-crashed-see-C08")
+        ctx.assume(False)
+    if res is None:
+        ctx.assume(False)
+    return res
+
+
 def run_compiler(name, problem):
     """-> CompilerResult or None when the compiler does not support the problem's kind (outside the property's domain)."""
     from unified_planning.engines.compilers import CompilersPipeline
